@@ -46,6 +46,10 @@ theorem pv_flushPendingPlain : ∀ (c : List Id) (l : List (SplitStatus × Str))
     unfold flushPendingPlain; pv_walk
 macro_rules | `(tactic| pv_leaf) => `(tactic| with_reducible exact pv_flushPendingPlain _ _)
 
+theorem pv_flushPendingTableText {c : List Id} : PV c flushPendingTableText nil := by
+  unfold flushPendingTableText; pv_walk
+macro_rules | `(tactic| pv_leaf) => `(tactic| with_reducible exact pv_flushPendingTableText)
+
 theorem pv_stepInTableText {c : List Id} (t : Token) : PV c (stepInTableText t) prH := by
   unfold stepInTableText; pv_walk
 macro_rules | `(tactic| pv_leaf) => `(tactic| with_reducible exact pv_stepInTableText _)
